@@ -28,7 +28,6 @@ TEMPLATES = {
     "xor16i":  (bytes([0x66, 0x81, 0x33, 0x34, 0x12]), "rmw", 2), "sub32i8": (bytes([0x83, 0x2b, 0x01]), "rmw", 4),
     "and64i":  (bytes([0x48, 0x81, 0x23, 0x0f, 0xf0, 0x0f, 0x70]), "rmw", 8), "shl32": (bytes([0xc1, 0x23, 0x03]), "rmw", 4),
     "dec16":   (bytes([0x66, 0xff, 0x0b]), "rmw", 2), "adc8i": (bytes([0x80, 0x13, 0x11]), "rmw", 1),
-    "xorps":   (bytes([0x0f, 0x57, 0x03]), "load", 16),
     "push64":  (bytes([0x50]), "push", 8), "pushi8": (bytes([0x6a, 0x7f]), "push", 8),
     "call":    (bytes([0xe8, 0, 0, 0, 0]), "push", 8),
 }
